@@ -32,6 +32,16 @@ try:
     po, fo = res[(wt, f)]
     pn, fn = res[('/repo', f)]
     lost = sorted(po - pn)
+    # xdist runs under load are flaky: a test only counts as lost if it also
+    # fails when it is run on its own on the working tree
+    confirmed = []
+    for t in lost:
+      p1 = subprocess.run(['/venv/bin/python', '-m', 'pytest', '-q', '-p', 'no:cacheprovider',
+                           '--timeout=1800', t], cwd='/repo', capture_output=True, text=True,
+                          env=dict(os.environ, TF_CPP_MIN_LOG_LEVEL='3'))
+      if p1.returncode != 0:
+        confirmed.append(t)
+    lost = confirmed
     gained = sorted(pn - po)
     lost_total += len(lost)
     print('%-60s snapshot pass=%3d  now pass=%3d  lost=%d gained=%d' % (f, len(po), len(pn), len(lost), len(gained)))
